@@ -93,6 +93,9 @@ const (
 	FaultGarbageCert = "garbage_certificate" // unjudged stress kind
 	FaultCtx         = "context_cancelled"   // the request's context was cancelled when the call was made
 	FaultPartial     = "partial_then_error"  // user lookups: part of the record is delivered, then the call fails
+	FaultTimeout     = "timeout_error"       // the call fails with a timeout-class error that wraps context.DeadlineExceeded
+	FaultPoolClosed  = "pool_closed_error"   // the call fails with an error that wraps context.Canceled
+	FaultNilNil      = "nil_without_error"   // lookups: no record and no error
 )
 
 // FaultPlan decides whether the occ-th (1-based) call of op inside the request
@@ -172,6 +175,10 @@ type World struct {
 	// PartialDelay is slept between the partial fill and the error of a FaultPartial user lookup.
 	PartialDelay time.Duration
 	Lenient bool            // GetEntityByID matches ignoring case / surrounding blanks / trailing slash
+	// NilForUnknown makes GetEntityByID answer (nil, nil) for an entity that is not registered, instead of an error.
+	NilForUnknown bool
+	// IgnoreCtx: the storage does not look at the request's context (a driver that finishes what it started).
+	IgnoreCtx bool
 	// Tenanted scopes service-provider lookups by the issuer found in the request context (multi-tenant
 	// deployments register the same entity ID independently per virtual host).
 	Tenanted bool
@@ -245,7 +252,7 @@ func (w *World) ResetLog() {
 
 func (w *World) fault(ctx context.Context, op string) string {
 	if w.Plan == nil && w.Before == nil {
-		if ctx.Err() != nil {
+		if ctx.Err() != nil && !w.IgnoreCtx {
 			return FaultCtx
 		}
 		return ""
@@ -258,7 +265,7 @@ func (w *World) fault(ctx context.Context, op string) string {
 	if w.Before != nil {
 		w.Before(ctx, tag, op, n)
 	}
-	if ctx.Err() != nil {
+	if ctx.Err() != nil && !w.IgnoreCtx {
 		return FaultCtx // a real database client returns the context's error
 	}
 	if w.Plan == nil {
@@ -268,6 +275,28 @@ func (w *World) fault(ctx context.Context, op string) string {
 }
 
 var ErrInjected = errors.New("injected storage fault")
+
+// timeoutError is what a storage returns whose own call to the database ran into a deadline: a timeout-class error
+// (net.Error style) that wraps context.DeadlineExceeded although the request's context is alive.
+type timeoutError struct{}
+
+func (timeoutError) Error() string   { return "injected storage fault: i/o timeout" }
+func (timeoutError) Timeout() bool   { return true }
+func (timeoutError) Temporary() bool { return true }
+func (timeoutError) Unwrap() error   { return context.DeadlineExceeded }
+
+// errFor returns the error a failing call reports for the given fault kind.
+func errFor(kind string) error {
+	switch kind {
+	case FaultTimeout:
+		return timeoutError{}
+	case FaultPoolClosed:
+		return fmt.Errorf("injected storage fault: connection pool closed: %w", context.Canceled)
+	case FaultCtx:
+		return context.Canceled
+	}
+	return ErrInjected
+}
 
 // ---- registration (harness side) ----
 
@@ -364,10 +393,8 @@ func (w *World) GetCA(ctx context.Context) (*key.CertificateAndKey, error) {
 
 func (w *World) keyFault(f string, base *key.CertificateAndKey) (*key.CertificateAndKey, error) {
 	switch f {
-	case FaultError:
-		return nil, ErrInjected
-	case FaultCtx:
-		return nil, context.Canceled
+	case FaultError, FaultTimeout, FaultPoolClosed, FaultCtx:
+		return nil, errFor(f)
 	case FaultNilRecord:
 		return nil, nil
 	case FaultKeyNoCert:
@@ -402,7 +429,10 @@ func (w *World) GetEntityByID(ctx context.Context, entityID string) (*servicepro
 	w.delay("GetEntityByID")
 	if f := w.fault(ctx, "GetEntityByID"); f != "" {
 		w.log(Event{Tag: TagOf(ctx), Op: "GetEntityByID", Args: []string{entityID}, Res: f, Err: true})
-		return nil, ErrInjected
+		if f == FaultNilNil {
+			return nil, nil
+		}
+		return nil, errFor(f)
 	}
 	w.mu.Lock()
 	key := entityID
@@ -421,6 +451,9 @@ func (w *World) GetEntityByID(ctx context.Context, entityID string) (*servicepro
 	w.mu.Unlock()
 	if sp == nil {
 		w.log(Event{Tag: TagOf(ctx), Op: "GetEntityByID", Args: []string{entityID}, Res: "not found", Err: true})
+		if w.NilForUnknown {
+			return nil, nil // the "return m[id], nil" idiom of map-backed storages
+		}
 		return nil, fmt.Errorf("service provider %s is not registered", entityID)
 	}
 	w.log(Event{Tag: TagOf(ctx), Op: "GetEntityByID", Args: []string{entityID}, Res: sp.GetEntityID()})
@@ -431,7 +464,7 @@ func (w *World) GetEntityIDByAppID(ctx context.Context, appID string) (string, e
 	w.delay("GetEntityIDByAppID")
 	if f := w.fault(ctx, "GetEntityIDByAppID"); f != "" {
 		w.log(Event{Tag: TagOf(ctx), Op: "GetEntityIDByAppID", Args: []string{appID}, Res: f, Err: true})
-		return "", ErrInjected
+		return "", errFor(f)
 	}
 	w.mu.Lock()
 	id, ok := w.apps[appID]
@@ -450,7 +483,7 @@ func (w *World) CreateAuthRequest(ctx context.Context, req *samlp.AuthnRequestTy
 	args := []string{acsURL, binding, relayState, appID}
 	if f := w.fault(ctx, "CreateAuthRequest"); f != "" {
 		w.log(Event{Tag: TagOf(ctx), Op: "CreateAuthRequest", Args: args, Res: f, Err: true, Req: snap})
-		return nil, ErrInjected
+		return nil, errFor(f)
 	}
 	n := w.nextReq.Add(1)
 	r := &AuthReq{
@@ -473,7 +506,7 @@ func (w *World) AuthRequestByID(ctx context.Context, id string) (models.AuthRequ
 	w.delay("AuthRequestByID")
 	if f := w.fault(ctx, "AuthRequestByID"); f != "" {
 		w.log(Event{Tag: TagOf(ctx), Op: "AuthRequestByID", Args: []string{id}, Res: f, Err: true})
-		return nil, ErrInjected
+		return nil, errFor(f)
 	}
 	w.mu.Lock()
 	r := w.requests[id]
@@ -515,7 +548,7 @@ func (w *World) SetUserinfoWithUserID(ctx context.Context, applicationID string,
 			time.Sleep(w.PartialDelay)
 		}
 		w.log(Event{Tag: TagOf(ctx), Op: "SetUserinfoWithUserID", Args: []string{applicationID, userID}, Res: f, Err: true})
-		return ErrInjected
+		return errFor(f)
 	}
 	w.mu.Lock()
 	u := w.users[userID]
@@ -544,7 +577,7 @@ func (w *World) SetUserinfoWithLoginName(ctx context.Context, userinfo models.At
 			time.Sleep(w.PartialDelay)
 		}
 		w.log(Event{Tag: TagOf(ctx), Op: "SetUserinfoWithLoginName", Args: []string{loginName}, Res: f, Err: true})
-		return ErrInjected
+		return errFor(f)
 	}
 	w.mu.Lock()
 	u := w.logins[loginName]
@@ -562,7 +595,7 @@ func (w *World) Health(ctx context.Context) error {
 	w.delay("Health")
 	if f := w.fault(ctx, "Health"); f != "" {
 		w.log(Event{Tag: TagOf(ctx), Op: "Health", Res: f, Err: true})
-		return ErrInjected
+		return errFor(f)
 	}
 	w.log(Event{Tag: TagOf(ctx), Op: "Health", Res: "ok"})
 	return nil
